@@ -56,3 +56,90 @@ package ssh
 //@ |   !dirPossible(C.CiphersClientServer, S.CiphersClientServer, C.MACsClientServer, S.MACsClientServer, C.CompressionClientServer, S.CompressionClientServer) ||
 //@ |   !dirPossible(C.CiphersServerClient, S.CiphersServerClient, C.MACsServerClient, S.MACsServerClient, C.CompressionServerClient, S.CompressionServerClient))
 //@ canary ensures implies(err == nil && isClient, fc(C.CiphersClientServer, S.CiphersClientServer, algs.Read.Cipher))
+
+// ---- C24: wire encoding primitives (RFC 4251 section 5) ----
+//@ pred be32(b) = b[0]*16777216 + b[1]*65536 + b[2]*256 + b[3]
+//@ pred view(o, s, a, b) = ref(o) == ref(s) && off(o) == off(s) + a && len(o) == b - a
+//@ pred bytes64(b, n) = b[0] == (n >> 56) % 256 && b[1] == (n >> 48) % 256 && b[2] == (n >> 40) % 256 && b[3] == (n >> 32) % 256 &&
+//@ |   b[4] == (n >> 24) % 256 && b[5] == (n >> 16) % 256 && b[6] == (n >> 8) % 256 && b[7] == n % 256
+//@ pred appended(r, b, n) = len(r) == len(b) + n && forall(i, 0, len(b), r[i] == old(b[i])) &&
+//@ |   implies(cap(b) >= len(b) + n, ref(r) == ref(b) && off(r) == off(b))
+
+//@ func parseString
+//@ props C24
+//@ pure
+//@ ensures ok == (len(in) >= 4 && (len(in) - 4) % 4294967296 >= be32(in))
+//@ ensures implies(ok, view(out, in, 4, 4 + be32(in)) && view(rest, in, 4 + be32(in), len(in)))
+//@ ensures implies(!ok, out == nil && rest == nil)
+//@ canary ensures implies(ok, len(rest) == 0)
+
+//@ func parseUint32
+//@ props C24
+//@ pure
+//@ ensures result2 == (len(in) >= 4)
+//@ ensures implies(result2, result0 == be32(in) && view(result1, in, 4, len(in)))
+//@ ensures implies(!result2, result0 == 0 && result1 == nil)
+
+//@ func parseUint64
+//@ props C24
+//@ pure
+//@ ensures result2 == (len(in) >= 8)
+//@ ensures implies(result2, result0 == be32(in)*4294967296 + be32(in[4:]) && view(result1, in, 8, len(in)))
+//@ ensures implies(!result2, result0 == 0 && result1 == nil)
+
+//@ func marshalUint32
+//@ props C24
+//@ may_panic_when len(to) < 4
+//@ modifies to[0:4]
+//@ ensures be32(to) == n && view(result, to, 4, len(to))
+
+//@ func marshalUint64
+//@ props C24
+//@ may_panic_when len(to) < 8
+//@ modifies to[0:8]
+//@ ensures bytes64(to, n) && view(result, to, 8, len(to))
+
+//@ func stringLength
+//@ props C24
+//@ pure
+//@ requires 0 <= n && n <= 4294967295
+//@ ensures result == 4 + n
+
+//@ func marshalString
+//@ props C24
+//@ requires len(s) <= 4294967295
+//@ requires !sameobj(to, s)
+//@ may_panic_when len(to) < 4 + len(s)
+//@ modifies to[0:4+len(s)]
+//@ ensures be32(to) == len(s) && forall(i, 0, len(s), to[4+i] == s[i]) && view(result, to, 4 + len(s), len(to))
+
+//@ func appendU16
+//@ props C24
+//@ fresh result
+//@ ensures appended(result, buf, 2) && result[len(buf)] == n / 256 && result[len(buf)+1] == n % 256
+
+//@ func appendU32
+//@ props C24
+//@ fresh result
+//@ ensures appended(result, buf, 4) && be32(result[len(buf):]) == n
+
+//@ func appendU64
+//@ props C24
+//@ fresh result
+//@ ensures appended(result, buf, 8) && bytes64(result[len(buf):], n)
+
+//@ func appendInt
+//@ props C24
+//@ fresh result
+//@ ensures appended(result, buf, 4) && be32(result[len(buf):]) == n % 4294967296
+
+//@ func appendString
+//@ props C24
+//@ fresh result
+//@ ensures appended(result, buf, 4 + len(s)) && be32(result[len(buf):]) == len(s) % 4294967296
+//@ ensures forall(i, 0, len(s), result[len(buf)+4+i] == s[i])
+
+//@ func appendBool
+//@ props C24
+//@ fresh result
+//@ ensures appended(result, buf, 1) && result[len(buf)] == ite(b, 1, 0)
